@@ -74,3 +74,45 @@ func mkcsvCmd(args []string) {
 	w.Flush()
 	f.Close()
 }
+
+func init() { commands["csvread"] = csvreadCmd }
+
+// csvread <casefile>: "CSVTEXT id <bytes>" is read by encoding/csv with its default
+// configuration (what create.go uses); "RUNES id <bytes>" is decoded by Go's own string->rune
+// conversion. One line of output each, in the format of the model driver's csvbytes command.
+func csvreadCmd(args []string) {
+	for _, l := range readLines(args[0]) {
+		t := newToks(l)
+		if !t.more() {
+			continue
+		}
+		switch t.next() {
+		case "CSVTEXT":
+			id := t.next()
+			text := t.str()
+			recs, err := csv.NewReader(strings.NewReader(text)).ReadAll()
+			if err != nil {
+				pr("CSVREAD %s ERR\n", id)
+				continue
+			}
+			pr("CSVREAD %s OK %d", id, len(recs))
+			for _, r := range recs {
+				pr(" R %d", len(r))
+				for _, f := range r {
+					pr(" %s", fmtStr(f))
+				}
+			}
+			pr("\n")
+		case "RUNES":
+			id := t.next()
+			rs := []rune(t.str())
+			pr("RUNES %s %d", id, len(rs))
+			for _, r := range rs {
+				pr(" %d", r)
+			}
+			pr("\n")
+		default:
+			fatal("csvread: bad line %q", l)
+		}
+	}
+}
